@@ -222,10 +222,13 @@ CONFIGS_QUICK = [
     ("chain", "sge", True, False, False, 3),
     ("fork", "lsf", True, True, False, 3),
     ("diamond", "slurm", True, True, True, 2),
+    # a redundant edge whose far end sorts after the near one (X needs B and C, B needs C): order-sensitive traversals show here
+    ("shortcut", "slurm", True, False, False, 3),
+    ("shortcut", "lsf", True, True, True, 2),
 ]
 CONFIGS_THOROUGH = [
     (wf, be, acct, hashing, fresh, d)
-    for wf, d in (("fork", 6), ("chain", 6), ("diamond", 4))
+    for wf, d in (("fork", 6), ("chain", 6), ("diamond", 4), ("shortcut", 5))
     for be, acct in (("slurm", True), ("slurm", False), ("sge", True), ("lsf", True))
     for hashing in (False, True)
     for fresh in (False, True)
